@@ -151,9 +151,9 @@ def run_obligations(obls, log):
             mine = [o for o in obls if o.crate == crate]
             groups = {}
             for o in mine:
-                key = tuple(sorted(f for f in o.flags if f in ("nofloat", "quant")))
+                key = (tuple(sorted(f for f in o.flags if f in ("nofloat", "quant"))), o.budget)
                 groups.setdefault(key, []).append(o)
-            for flags, os_ in sorted(groups.items()):
+            for (flags, _budget), os_ in sorted(groups.items()):
                 # heavy harnesses (mem) get fewer jobs
                 heavy = any("heavy" in o.flags for o in os_)
                 jobs = min(NCPU, 4) if heavy else NCPU
